@@ -97,6 +97,43 @@ def expect_state(dims):
     return out
 
 
+def ordered_removal_layer(ck):
+    """fixed cases, run on every seed: three or four extra dimensions of different widths, every pair and triple of them
+    removed in every order of the names; the dimensions kept must keep their values and the record its length"""
+    import itertools
+    import laspy
+    types = ["u1", "f8", "3i2", "u4"]
+    for k in (3, 4):
+        for r in (2, 3):
+            for names in itertools.permutations([f"d{i}" for i in range(k)], r):
+                las = laspy.create(point_format=ck.rng.choice([0, 3, 6]))
+                las.add_extra_dims([laspy.ExtraBytesParams(f"d{i}", types[i]) for i in range(k)])
+                n = 3
+                las.points = laspy.ScaleAwarePointRecord.zeros(n, header=las.header)
+                for i in range(k):
+                    arr = las.points.array[f"d{i}"]
+                    las.points.array[f"d{i}"] = np.frombuffer(fio.raw_records(ck.rng, 1, arr.nbytes), dtype=arr.dtype).reshape(arr.shape)
+                keep = {f"d{i}": las.points.array[f"d{i}"].tobytes() for i in range(k) if f"d{i}" not in names}
+                std = [las.points.array[d_].tobytes() for d_ in ("X", "Y", "Z", "intensity")]
+                inp = {"kind": "ordered_removal", "dims": [(f"d{i}", types[i]) for i in range(k)], "removed_in_order": list(names)}
+                ck.case(("ordered_removal", k, names), nontrivial=True)
+                ck.count("ordered_removal_cases")
+                try:
+                    las.remove_extra_dims(list(names))
+                except Exception as e:
+                    ck.fail(f"removing {list(names)} raised {type(e).__name__}: {e}", inp)
+                    continue
+                for nm, b in keep.items():
+                    if nm not in (las.points.array.dtype.names or ()) or las.points.array[nm].tobytes() != b:
+                        ck.fail(f"removing {list(names)} (in that order) changed the values of the kept extra dimension {nm}", dict(inp, finding_key="C13:remove:values"))
+                        break
+                if list(las.point_format.extra_dimension_names) != list(keep) or [las.points.array[d_].tobytes() for d_ in ("X", "Y", "Z", "intensity")] != std:
+                    ck.fail(f"removing {list(names)}: extra dimensions left {list(las.point_format.extra_dimension_names)}, expected {list(keep)} (or standard values changed)", inp)
+                want_len = laspy.PointFormat(las.header.point_format.id).size + sum(np.dtype(types[int(nm[1:])]).itemsize if not types[int(nm[1:])][0].isdigit() else int(types[int(nm[1:])][0]) * np.dtype(types[int(nm[1:])][1:]).itemsize for nm in keep)
+                if las.points.array.dtype.itemsize != want_len or las.header.point_format.size != want_len:
+                    ck.fail(f"removing {list(names)}: record length {las.points.array.dtype.itemsize} / {las.header.point_format.size}, expected {want_len}", inp)
+
+
 def run(ck):
     logging.getLogger("laspy").setLevel(logging.CRITICAL)
     warnings.simplefilter("ignore")
@@ -254,6 +291,7 @@ def run(ck):
             meta.append(({"history": hist, "what": "parse"}, " ".join(d.tok() for d in dims)))
         if len(ck.samples) < 3:
             ck.sample({"fmt": fmt, "n": n, "history": hist})
+    ordered_removal_layer(ck)
     out = ck.driver(lines)
     bad = None
     if out is None or len(out) != len(lines):
